@@ -2034,7 +2034,9 @@ LEVEL_NOTE = ('Trusted: Coq kernel/vm_compute, translator (G_codes, G_flags), th
               'stream and feature-list history stream run_C06f - lookups by type name interleaved with in-place edits of the FeatureList on 1-3 '
               'objects; the model is pure, so a stale answer disagrees at the first wrong step), the Feature(...) argument forms beyond Location lists (C06_run_op_modes shows they build the same model '
               'value), Strand/Defect validation, which sequences a basket slice with a step selects (list_slice is CPython\'s algorithm copied, '
-              'the theorems are parametric in it), RNA residues exactly (the theorems are up to U/T). Under gap x update_fts no theorem says which '
+              'the theorems are parametric in it), RNA residues exactly (the theorems are up to U/T), that CPython\'s sorted() / list.insert / list.remove and '
+              'the str methods behind seq.str.* are the modelled functions (fts_sort = stable insertion sort, list_ins, remove_first; replace only with a '
+              'one-character old string, strip only with explicit chars), the metadata part of Feature.__eq__ (the driver\'s features carry their type only). Under gap x update_fts no theorem says which '
               'of the two paths is right (sugar does not define whether feature coordinates count columns or residues); they are characterised and '
               'shown to agree exactly on aligned windows. ASCII strings; nucleotide alphabet for the rc clauses. '
               'Domain excludes update_fts with multi-location windows (ValueError by design, proved); empty slice windows are inside the domain since '
